@@ -50,7 +50,34 @@ Lemma parse_program_loop_S : forall pf md f acc s,
   if cur_is s TEOF then POk (rev acc) s
   else if cur_is s TIllegal then PErr
   else pbind (parse_statement pf md (S f) s) (fun st s1 =>
-       parse_program_loop pf md f (st :: acc) (next s1)).
+       parse_program_loop pf md f (bind_postfix acc st :: acc) (next s1)).
+Proof. reflexivity. Qed.
+
+(* bind_postfix (repair of D43) changes a statement only when it is a postfix
+   operator and the statement before it is the name of a variable *)
+Definition is_postfix_stmt (st : stmt) : bool :=
+  match st with SExpr (EPostfix _ _) => true | _ => false end.
+Definition is_ident_stmt (st : stmt) : bool :=
+  match st with SExpr (EIdent _) => true | _ => false end.
+
+Lemma bind_postfix_nil : forall st, bind_postfix [] st = st.
+Proof. intros st. destruct st as [e|e]; [|destruct e]; reflexivity. Qed.
+
+Lemma bind_postfix_not_postfix : forall acc st, is_postfix_stmt st = false -> bind_postfix acc st = st.
+Proof. intros acc st H. destruct st as [e|e]; [reflexivity|destruct e; try reflexivity; discriminate H]. Qed.
+
+Lemma bind_postfix_not_ident : forall a acc st, is_ident_stmt a = false -> bind_postfix (a :: acc) st = st.
+Proof.
+  intros a acc st H. destruct st as [e|e]; [reflexivity|destruct e; try reflexivity].
+  destruct a as [e|e]; [reflexivity|destruct e; try reflexivity; discriminate H].
+Qed.
+
+Lemma bind_postfix_ident : forall n acc m op,
+  bind_postfix (SExpr (EIdent n) :: acc) (SExpr (EPostfix m op)) = SExpr (EPostfix n op).
+Proof. reflexivity. Qed.
+
+Lemma bind_postfix_same : forall n acc op,
+  bind_postfix (SExpr (EIdent n) :: acc) (SExpr (EPostfix n op)) = SExpr (EPostfix n op).
 Proof. reflexivity. Qed.
 
 Lemma parse_statement_S : forall pf md f s,
@@ -76,7 +103,7 @@ Lemma parse_block_loop_S : forall pf md f acc s,
     pbind (parse_statement pf md f s) (fun st s1 =>
     let s2 := next s1 in
     if cur_is s2 TEOF || cur_is s2 TIllegal then PErr
-    else parse_block_loop pf md f (st :: acc) s2).
+    else parse_block_loop pf md f (bind_postfix acc st :: acc) s2).
 Proof. reflexivity. Qed.
 
 Lemma parse_prefix_atom : forall pf md f s,
@@ -620,7 +647,7 @@ Proof.
   rewrite skip_semis_S. unfold peek_is.
   pose proof Hb2 as [Hpk2 _]. cbn [hd] in Hpk2. rewrite Hpk2. cbn [tty eof tokty_beq pbind].
   apply before_next in Hb2. apply pos_cons in Hb2. destruct Hb2 as [Hc3 _].
-  rewrite parse_program_loop_S. unfold cur_is. rewrite Hc3. reflexivity.
+  rewrite parse_program_loop_S. unfold cur_is. rewrite Hc3, bind_postfix_nil. reflexivity.
 Qed.
 
 (* ---- the trees ---- *)
@@ -739,3 +766,17 @@ Proof.
   - apply G_to_Expr; [apply starts_full|]. apply G_full. exact H.
   - reflexivity.
 Qed.
+
+(* ------------------------------------------------------------------ *)
+(* C12: a postfix operator names its variable, however the variable is *)
+(* parenthesised (repair of D43: `(x)++` used to name `)`)             *)
+(* ------------------------------------------------------------------ *)
+
+Theorem postfix_parens :
+  let run := parse_script (fun _ => None) max_depth in
+  let want := ParseOk [SExpr (EAssign (L "x") (EInt (L "1") 1)); SExpr (EIdent (L "x"));
+                       SExpr (EPostfix (L "x") TPlusPlus)] in
+  run (L "x = 1; x++;") = want /\
+  run (L "x = 1; (x)++;") = want /\
+  run (L "x = 1; ((x))++;") = want.
+Proof. vm_compute. repeat split; reflexivity. Qed.
